@@ -10,6 +10,7 @@ running interpreter.  Direct oracle = the property's predicates evaluated in
 Python on what the implementation returned (independent of the model)."""
 import json
 import re
+import time
 from collections import Counter
 
 import common
@@ -650,11 +651,14 @@ def long_stage(ctx, kb, ctxs, tlds, kw, dist, P):
                 facts_ok = False
             secs, counters, raised = run_impl(mw, [s])
             n_eval += 1
-            vio += oracle(kb, ctxs, tlds, kw, pre, hist, counts, mw, [s], secs, counters, raised)
+            here = oracle(kb, ctxs, tlds, kw, pre, hist, counts, mw, [s], secs, counters, raised)
+            vio += here
             dist["fam_" + fams[0]] += 1
             dist["long_sections_max"] = max(dist["long_sections_max"], len(secs[0] or []))
             if raised:
                 dist["raised"] += 1
+            elif here:
+                pass        # already reported with its input; a section list that does not tile can be far longer than the password
             elif len(chosen) < ctx.scale(14, 60) and (fams == ["long-fixed"] or rng.random() < 0.5):
                 chosen.append(([s], secs, counters))
         cases = ["CParse 0%%nat %s [%s] %s" % (cstrs(pws), "; ".join(csections(x) for x in secs), ccounters(c))
@@ -816,9 +820,11 @@ def shrink(ctx, v):
     if len(rp.get("pws", [])) != 1 or "file" in rp or rp.get("trainer_run") or ":recursion:" in v["sig"]:
         return v
     budget = [SHRINK_BUDGET]
+    if not _shrink_deadline:
+        _shrink_deadline.append(time.time() + SHRINK_SECONDS)
 
     def hits(r):
-        if budget[0] <= 0:
+        if budget[0] <= 0 or time.time() > _shrink_deadline[0]:
             return []
         budget[0] -= 1
         try:
@@ -852,6 +858,8 @@ def shrink(ctx, v):
 
 
 SHRINK_BUDGET = 1200
+SHRINK_SECONDS = 30          # all shrinking of one run together
+_shrink_deadline = []
 
 
 def dedup(vio):
@@ -865,13 +873,22 @@ def dedup(vio):
     return [b[1] for _, b in sorted(best.items())]
 
 
+_static = []
+
+
+def static():
+    """keyboard layouts, constants of the sources, detector arguments (the tree does not change during a run)"""
+    if not _static:
+        C = trainer_seg.extract_data()
+        _static.append((KB(), C, {"threshold": C["mw_threshold"], "min_len": C["mw_min_len"], "max_len": C["mw_max_len"]}))
+    return _static[0]
+
+
 def replay(ctx, data):
     inp = data.get("input") or {}
     if "pws" not in inp:
         return []
-    kb = KB()
-    C = trainer_seg.extract_data()
-    kw = {"threshold": C["mw_threshold"], "min_len": C["mw_min_len"], "max_len": C["mw_max_len"]}
+    kb, C, kw = static()
     pre, hist, pws = inp.get("pre", []), inp.get("hist", []), inp["pws"]
     if inp.get("trainer_run"):
         # replay of a whole trainer run: the file / list is trained again and the same judge applied
